@@ -146,6 +146,8 @@ func dumpFunc(p *Prog, name string) {
 	parts := strings.Split(name, ".")
 	g := NewGate(p)
 	g.Search = os.Getenv("UFCHECK_SEARCH") != ""
+	g.Unroll = os.Getenv("UFCHECK_UNROLL") != ""
+	g.ConstTables = os.Getenv("UFCHECK_UNROLL") != ""
 	if os.Getenv("UFCHECK_NOINLINE") != "" {
 		g.Inline = inlineOnly(strings.Split(os.Getenv("UFCHECK_NOINLINE"), ",")...)
 	}
